@@ -213,6 +213,14 @@ func runC19(c *Ctx) {
 						if in, ok := s2.(*ast.IfStmt); ok && strings.Contains(exprKeyNode(in.Init)+exprKey(in.Cond), "csv.ParseError") && endsWithContinue(in.Body) {
 							okPE = true
 						}
+						// the assertion bound to a variable first: `_, isPE := err.(*csv.ParseError); if isPE { …; continue }`
+						if in, ok := s2.(*ast.IfStmt); ok && in.Init == nil && endsWithContinue(in.Body) {
+							if id, ok := ast.Unparen(in.Cond).(*ast.Ident); ok {
+								if rhs, idx, ok := f.definedBy(ifs.Body, f.ObjOf(id)); ok && idx == 1 && strings.Contains(exprKey(rhs), "csv.ParseError") {
+									okPE = true
+								}
+							}
+						}
 					}
 					c.Check(okPE, "C19.2", key, ifs.Pos(), "a malformed record is reported and skipped; other read errors stop the import", "a CSV parse error does not continue with the next record")
 				default:
@@ -257,11 +265,19 @@ func runC19(c *Ctx) {
 			okMax := false
 			inspectBody(f.Decl.Body, func(x ast.Node) bool {
 				if rs, ok := x.(*ast.RangeStmt); ok && strings.HasSuffix(exprKey(rs.X), ".srcCols") {
+					// the element: the range value, or the operand indexed by the range key
+					elem := map[string]bool{}
+					if rs.Value != nil {
+						elem[exprKey(rs.Value)] = true
+					}
+					if rs.Key != nil {
+						elem[exprKey(rs.X)+"["+exprKey(rs.Key)+"]"] = true
+					}
 					for _, s2 := range rs.Body.List {
 						if ifs, ok := s2.(*ast.IfStmt); ok {
-							if be, ok := ast.Unparen(ifs.Cond).(*ast.BinaryExpr); ok && be.Op == token.GTR && exprKey(be.Y) == maxName && exprKey(be.X) == exprKey(rs.Value) {
+							if be, ok := ast.Unparen(ifs.Cond).(*ast.BinaryExpr); ok && be.Op == token.GTR && exprKey(be.Y) == maxName && elem[exprKey(be.X)] {
 								for _, s3 := range ifs.Body.List {
-									if as, ok := s3.(*ast.AssignStmt); ok && exprKey(as.Lhs[0]) == maxName && exprKey(as.Rhs[0]) == exprKey(rs.Value) {
+									if as, ok := s3.(*ast.AssignStmt); ok && exprKey(as.Lhs[0]) == maxName && elem[exprKey(as.Rhs[0])] {
 										okMax = true
 									}
 								}
@@ -346,8 +362,16 @@ func runC19(c *Ctx) {
 				}
 				return true
 			})
+			// a fresh row from make() already holds nil at every index; with no earlier store (checked below)
+			// the branch may simply continue
+			implicitNil := fresh && len(nullIf.Body.List) >= 1
+			for _, st := range nullIf.Body.List {
+				if _, isBr := st.(*ast.BranchStmt); !isBr {
+					implicitNil = false
+				}
+			}
 			switch {
-			case !storesNil || !endsWithContinue(nullIf.Body):
+			case !(storesNil || implicitNil) || !endsWithContinue(nullIf.Body):
 				c.Fail("C19.4", key, nullIf.Pos(), "the \\N branch does not store nil and continue")
 			case early != "":
 				c.Fail("C19.4", key, nullIf.Pos(), "a value is stored into the row at %s before the \\N test: a NULL marker in a column of that type is stored as the literal text \\N", early)
